@@ -140,6 +140,7 @@ VChanges(mb) ==
   \cup { [mb.v EXCEPT !.pgG = kk] : kk \in 1..mb.t }
   \cup { [mb.v EXCEPT !.commit = "rand", !.cj = j] : j \in 1..mb.m }
   \cup { [mb.v EXCEPT !.commit = "swap", !.cj = j] : j \in 1..(mb.m - 1) }
+  \cup { [mb.v EXCEPT !.commit = "cache", !.cj = j] : j \in 1..mb.m }         \* only the cached encoding of commitment j (a public field)
   \cup { [mb.v EXCEPT !.n = nn] : nn \in AllN \ {mb.n} }
   \cup { [mb.v EXCEPT !.cap = cc] : cc \in {c \in {1, 2, 4, 8, 16} : c >= mb.m} }
   \cup { [mb.v EXCEPT !.seed = s] : s \in (IF mb.m = 1 THEN {0, 1, 2} ELSE {0}) }
@@ -150,7 +151,14 @@ FamAlter ==
   LET MutS == UNION { { One([BaseMember(b) EXCEPT !.mut = mu], mode) : mu \in MutSet(b[2], Log2(b[1] * b[3])) } :
                       b \in Bases, mode \in {"VerifyOnly", "RecoverAndVerify"} }
       VS   == UNION { { One([BaseMember(b) EXCEPT !.v = vv], "VerifyOnly") : vv \in VChanges(BaseMember(b)) } : b \in Bases }
-  IN MutS \cup VS
+      \* a statement over many commitments (two transcript "blocks" of 64 and more): each commitment, its cached encoding, the context
+      \* and H are still bound
+      Wide == LET mb == Member(2, 1, 128, 128, "mid", "max", 1, "none", "lt", 128, 0, 0, "chacha") IN
+              { One([mb EXCEPT !.v = vv], "VerifyOnly") :
+                  vv \in { [mb.v EXCEPT !.commit = k, !.cj = j] : k \in {"rand", "cache"}, j \in {1, 3, 64, 66, 128} }
+                       \cup { [mb.v EXCEPT !.commit = "swap", !.cj = j] : j \in {2, 70} }
+                       \cup { [mb.v EXCEPT !.label = 1], [mb.v EXCEPT !.pgH = 1], [mb.v EXCEPT !.proms[70] = U64One], mb.v } }
+  IN MutS \cup VS \cup Wide
 
 (***************************************************************************************************)
 (* promise (C07)                                                                                    *)
@@ -204,6 +212,7 @@ Kind(n, t, kd) ==
     [] kd = "dupS"  -> [Plain(n, t, 1, 1, 1) EXCEPT !.bseed = 7]                      \* the same SEEDED triple ...
     [] kd = "dupSL" -> LET mb == [Plain(n, t, 1, 1, 1) EXCEPT !.bseed = 7] IN [mb EXCEPT !.v.label = 1]   \* ... handed in with another context
     [] kd = "dupSw" -> LET mb == [Plain(n, t, 1, 1, 1) EXCEPT !.bseed = 7] IN [mb EXCEPT !.v.seed = 2]    \* ... recovered under the wrong seed
+    [] kd = "dupSn" -> LET mb == [Plain(n, t, 1, 1, 1) EXCEPT !.bseed = 7] IN [mb EXCEPT !.v.seed = 0]    \* ... a public copy: no seed on the verifier's side
     [] kd = "dup16"  -> [Plain(n, t, 16, 16, 0) EXCEPT !.bseed = 7]                  \* the same aggregated triple twice ...
     [] kd = "dup16L" -> LET mb == [Plain(n, t, 16, 16, 0) EXCEPT !.bseed = 7] IN [mb EXCEPT !.v.label = 1]   \* ... the second in an altered context
     [] kd = "vn"   -> LET mb == Plain(n, t, 1, 1, 0) IN [mb EXCEPT !.v.n = 2 * n]   \* only the verifier-side bit length is raised
@@ -269,7 +278,8 @@ FamRecover ==
                      ks \in UNION { [1..k -> {"v1s", "v1t", "v1st", "v1ts"}] : k \in 2..(IF Quick THEN 3 ELSE 4) }, t \in {1, 2}, mode \in Modes }
       \* one output listed several times with different candidate seeds (right, wrong, right ...): each copy is recovered under ITS seed
       Cand == { ScenF([x \in 1..Len(ks) |-> Kind(8, t, ks[x])], mode, NoSkew, FALSE, <<Kind(8, t, "v1")>>) :
-                  ks \in { <<"dupS", "dupSw">>, <<"dupSw", "dupS">>, <<"dupS", "dupSw", "dupS">>, <<"dupS", "dupS", "dupSw">>, <<"v1", "dupS", "dupSw">> },
+                  ks \in { <<"dupS", "dupSw">>, <<"dupSw", "dupS">>, <<"dupS", "dupSw", "dupS">>, <<"dupS", "dupS", "dupSw">>, <<"v1", "dupS", "dupSw">>,
+                           <<"dupSn", "dupS">>, <<"dupS", "dupSn">>, <<"dupSn", "dupS", "dupSw">> },
                   t \in {1, 3}, mode \in Modes }
       \* a blinding vector with zero components (all of them, for the one commitment)
       Zb == { One([[Member(n, t, 1, 1, "mid", vs, 1, "none", "none", 1, ps_seed, 0, "chacha") EXCEPT !.v.seed = vs2] EXCEPT !.zb = 1], mode) :
@@ -341,6 +351,10 @@ FamBind ==
   IN UNION { { Pair([BaseMember(b) EXCEPT !.mut = pm[1]], pm[2], FALSE) : pm \in PointMut(b) }
              \cup { Pair([BaseMember(b) EXCEPT !.mut = sm], 0, TRUE) : sm \in ScalMut(b) }
              \cup { Pair([BaseMember(b) EXCEPT !.v = vf[1]], vf[2], FALSE) : vf \in VFirst(BaseMember(b)) } : b \in BB }
+     \* a long statement (bits*aggregation = 1024) accepted first and then presented again with one datum perturbed
+     \cup LET mb == BaseMember(<<64, 1, 16, 16, 0>>) IN
+          { Pair([mb EXCEPT !.v = vf[1]], vf[2], FALSE) :
+              vf \in { <<[mb.v EXCEPT !.label = 1], 1>>, <<[mb.v EXCEPT !.pgH = 1], 1>>, <<[mb.v EXCEPT !.commit = "rand", !.cj = 5], 1>>, <<[mb.v EXCEPT !.proms[2] = U64One], 1>> } }
 
 (***************************************************************************************************)
 (* roundtrip (C15): prover outputs of the configuration lattice passed through to_bytes / from_bytes  *)
